@@ -1069,7 +1069,7 @@ class HookHarness:
         except Exception as e:  # noqa: BLE001
             raise Infra("RequestsHook could not be installed on the stub requests module: %r" % (e,))
         self.session = S.rq.Session()
-        self.n_calls = self.n_gateway = self.n_direct = self.n_fallback = self.n_app = self.n_known = self.n_retried = 0
+        self.n_calls = self.n_gateway = self.n_direct = self.n_fallback = self.n_app = self.n_known = self.n_retried = self.n_override = 0
 
     def close(self):
         if self.hook is not None:
@@ -1081,9 +1081,9 @@ class HookHarness:
         self.case["steps"].append(["adv", delta])
         CLOCK.advance(delta)
 
-    def call(self, dest, gw, code, gw_exc, dur, direct, direct_exc, method, with_headers, retries=0, retry_after=0.0):
+    def call(self, dest, gw, code, gw_exc, dur, direct, direct_exc, method, with_headers, retries=0, retry_after=0.0, override=None):
         self.case["steps"].append(["call", dest, gw, code, gw_exc, dur, direct, direct_exc, method, bool(with_headers),
-                                   int(retries), float(retry_after)])
+                                   int(retries), float(retry_after), override])
         where = "step #%d %s %s (gateway would answer %s%s, provider %s)" % (
             len(self.case["steps"]), method, dest,
             "%d time(s) 'send again in %ss', then " % (retries, retry_after) if retries else "", gw, direct)
@@ -1099,6 +1099,12 @@ class HookHarness:
         kwargs = {"timeout": 3}
         if with_headers:
             kwargs["headers"] = {"accept": "application/json"}
+        if override is not None:
+            # the per-request override (x-lunar-allow: true / false): what it does to THIS call is the operator's
+            # decision and not judged; it must not change how later calls without it are routed
+            kwargs.setdefault("headers", {})["x-lunar-allow"] = override
+            self.n_override += 1
+        req_headers = dict(kwargs.get("headers") or {})
         result = escaped = None
         self.n_calls += 1
         try:
@@ -1109,7 +1115,7 @@ class HookHarness:
                 raise
             escaped = e
         calls = WORLD.calls
-        must, why = filter_expect(self.block, self.allow, RES.table, 0, host, None)
+        must, why = filter_expect(self.block, self.allow, RES.table, 0, host, req_headers if override is not None else None)
         closed_options = self.ref.may_be(t_start)
 
         # the filter's decision raised into the application?
@@ -1204,6 +1210,7 @@ class HookHarness:
         rec.cls("calls via gateway", self.n_gateway)
         rec.cls("calls the gateway first answered with 'send again' (retry protocol)", self.n_retried)
         rec.cls("calls sent directly (open or filtered)", self.n_direct)
+        rec.cls("calls that carry the per-request override header x-lunar-allow", self.n_override)
         rec.cls("gateway failures followed by direct fallback", self.n_fallback)
         rec.cls("non-gateway exceptions propagated", self.n_app)
         rec.cls("decision raised (known finding)", self.n_known)
@@ -1450,11 +1457,14 @@ def test_requests_hook(checks, seed_value):
         ("with_headers", [False, True]),
         ("retries", [0, 0, 0, 0, 1, 1, 2, 3]),
         ("retry_after", [0.0, 0.5, 2.0]),
+        ("override", [None, None, None, None, None, "true", "true", "false"]),
     ])
     fail_args = packed([("dest", ["public_ip", "public_name"]), ("gw", ["conn", "hdr"]), ("wait", WAIT_OPTS),
                         ("direct", ["ok", "ok", "exc"]), ("dur", [0.0, 0.0, 0.25]), ("code", list(ERR_CODES)),
                         ("direct_exc", list(HOOK_DIRECT_EXC)), ("retries", [0, 0, 1, 2]), ("retry_after", [0.0, 0.5])])
     adv_args = packed(ADV_FIELDS)
+    override_args = packed([("dest", ["private_ip", "loopback_ip", "edge_ip", "private_name", "blocked_name", "other_name", "public_ip"]),
+                            ("override", ["true", "true", "false"]), ("method", ["GET", "POST"])])
 
     class HookMachine(RuleBasedStateMachine):
         def __init__(self):
@@ -1469,13 +1479,19 @@ def test_requests_hook(checks, seed_value):
         def call(self, a):
             wait_for_expiry(self.h, a["wait"])
             self.h.call(a["dest"], a["gw"], a["code"], a["gw_exc"], a["dur"], a["direct"], a["direct_exc"],
-                        a["method"], a["with_headers"], a["retries"], a["retry_after"])
+                        a["method"], a["with_headers"], a["retries"], a["retry_after"], a["override"])
 
         @rule(a=fail_args)
         def failing_call(self, a):
             wait_for_expiry(self.h, a["wait"])
             self.h.call(a["dest"], a["gw"], a["code"], "value", a["dur"], a["direct"], a["direct_exc"], "GET", False,
                         a["retries"], a["retry_after"])
+
+        @rule(a=override_args)
+        def overridden_then_plain(self, a):
+            # a destination the filter excludes is called once with the per-request override and then without it
+            for ov in (a["override"], None):
+                self.h.call(a["dest"], "ok", "1", "value", 0.0, "ok", "value", a["method"], False, 0, 0.0, ov)
 
         @rule(a=adv_args)
         def advance(self, a):
